@@ -3,6 +3,7 @@ from __future__ import annotations
 
 import copy
 import io
+import mmap
 import json
 import random
 
@@ -27,10 +28,14 @@ ASSUMPTIONS = [
     "To-end-of-stream ([EOF]) types: only bytes before p are re-randomised in the twin (their extent is the end of input).",
     "Reference = the library's own parse of image[p:] from offset 0 in a fresh BytesIO (differential oracle).",
     "Pointer dereference is not exercised here (C16).",
+    "The history's stream object is one of: io.BytesIO, SimStream, io.BufferedReader with a 1-23 byte buffer, an anonymous "
+    "mmap (a stream that also exports the buffer protocol). For mmap a ValueError ('seek out of range') is accepted where the "
+    "stand-alone parse fails too or its extent (tail padding) ends beyond the end of the data: a memory map cannot be "
+    "positioned past its end, which BytesIO and files allow.",
     "Across input kinds / call forms field VALUES are compared (not the _sizes bookkeeping nor the scalar wrapper class): "
     "T(b'x') on a structure whose only field is a char of exactly that size is a documented value-construction shortcut.",
 ]
-REAL = ["dissect.cstruct readers (compiled and interpreted)", "io.BytesIO"]
+REAL = ["dissect.cstruct readers (compiled and interpreted)", "io.BytesIO", "io.BufferedReader", "mmap.mmap (anonymous)"]
 STUBS = ["SimStream (logging seekable stream; injects one read error for failing parses)"]
 FORMS = ["call", "read", "cs.read", "_read"]
 
@@ -67,7 +72,7 @@ def gen_case(rng: random.Random, tier: str):
     return {"cfg": cfg, "defs": defs, "eof_tagged": g.has_eof and root_sel is None, "seed": rng.getrandbits(32), "image": None, "marks": None,
             "root_sel": root_sel,
             "pre": rng.randint(0, 3) * unit if rng.random() < 0.3 else rng.randint(0, 40) // unit * unit,
-            "gap": rng.randint(0, 24) // unit * unit, "suf": rng.randint(0, 24), "kind": rng.choice(["bytesio", "sim"]),
+            "gap": rng.randint(0, 24) // unit * unit, "suf": rng.randint(0, 24), "kind": rng.choice(["bytesio", "sim", "sim", "mmap", "buffered"]),
             "ops": ops, "twin_seed": rng.getrandbits(32)}
 
 
@@ -155,8 +160,19 @@ def run_case(case, stats):
     def new_stream(img, faults=()):
         if case["kind"] == "bytesio" and not faults:
             return io.BytesIO(img)
+        if case["kind"] == "mmap" and not faults and img:
+            # an anonymous memory map: a readable, seekable stream that ALSO exports the buffer protocol (no file involved)
+            m = mmap.mmap(-1, len(img))
+            m.write(img)
+            m.seek(0)
+            stats.count("probe.stream_kind_mmap")
+            return m
+        if case["kind"] == "buffered" and not faults:
+            stats.count("probe.stream_kind_buffered_reader")
+            return io.BufferedReader(io.BytesIO(img), buffer_size=rng_bufsize)
         return SimStream(img, faults=faults)
 
+    rng_bufsize = 1 + case["twin_seed"] % 23  # tiny buffer: the buffered reader refills in the middle of fields
     stream = new_stream(image)
     hist = []
     first_ok = None
@@ -188,6 +204,15 @@ def run_case(case, stats):
                 got = ("exc", type(e).__name__)
             stats.count("evaluations")
             stats.log(p, op["form"], got)
+            if (case["kind"] == "mmap" and got == ("exc", "ValueError")
+                    and (exp[0] == "exc" or (exp[0] == "val" and p + exp[2] > len(image)))):
+                # the encoded extent (tail padding of an aligned structure) ends beyond the end of the data: BytesIO and
+                # files allow positioning there, a memory map refuses the seek ("seek out of range"). Outside the domain
+                # of the statement for this stream kind (the stream cannot be left at p + size). Likewise a parse of
+                # truncated data fails on both, but with the memory map's own ValueError where BytesIO yields EOFError.
+                stats.count("probe.mmap_extent_beyond_end_exempt")
+                hist.append("parse_fail")
+                continue
             if p:
                 stats.key(shape, p % 16, case["kind"], op["form"], tuple(hist[-3:]))
             if got[0] == "exc":
